@@ -283,17 +283,33 @@ class UnionMatcher(AdditiveBiMatcher):
         elif not b.is_active():
             return a.skip_to_quality(minquality)
 
+        # Leave the matcher on a posting whose blocks together can beat
+        # minquality. A posting in the current block of one matcher may be
+        # paired with a posting from a later, better block of the other
+        # matcher, so a block can only be skipped against the best the other
+        # matcher can still do; when that is not possible, the current
+        # posting (which scores at most aq + bq) is stepped over
         skipped = 0
-        aq = a.block_quality()
-        bq = b.block_quality()
-        while a.is_active() and b.is_active() and aq + bq < minquality:
-            if aq < bq:
-                skipped += a.skip_to_quality(minquality - bq)
-                aq = a.block_quality()
+        while a.is_active() and b.is_active():
+            aq = a.block_quality()
+            bq = b.block_quality()
+            if aq + bq > minquality:
+                break
+            sk = a.skip_to_quality(minquality - b.max_quality())
+            if not sk and b.is_active():
+                sk = b.skip_to_quality(minquality - (a.max_quality()
+                                                     if a.is_active() else 0))
+            if sk:
+                skipped += sk
             else:
-                skipped += b.skip_to_quality(minquality - aq)
-                bq = b.block_quality()
+                self.next()
+            self._id = None
 
+        if a.is_active() and not b.is_active():
+            skipped += a.skip_to_quality(minquality)
+        elif b.is_active() and not a.is_active():
+            skipped += b.skip_to_quality(minquality)
+        self._id = None
         return skipped
 
 
@@ -522,12 +538,14 @@ class IntersectionMatcher(AdditiveBiMatcher):
         skipped = 0
         aq = a.block_quality()
         bq = b.block_quality()
-        while a.is_active() and b.is_active() and aq + bq < minquality:
+        while a.is_active() and b.is_active() and aq + bq <= minquality:
             if aq < bq:
                 # If the block quality of A is less than B, skip A ahead until
                 # it can contribute at least the balance of the required min
                 # quality when added to B
-                sk = a.skip_to_quality(minquality - bq)
+                # (b may contribute more than bq to a later posting in a's
+                # current block, so bound it by the best b can still do)
+                sk = a.skip_to_quality(minquality - b.max_quality())
                 skipped += sk
                 if not sk and a.is_active():
                     # The matcher couldn't skip ahead for some reason, so just
@@ -535,7 +553,7 @@ class IntersectionMatcher(AdditiveBiMatcher):
                     a.next()
             else:
                 # And vice-versa
-                sk = b.skip_to_quality(minquality - aq)
+                sk = b.skip_to_quality(minquality - a.max_quality())
                 skipped += sk
                 if not sk and b.is_active():
                     b.next()
@@ -772,17 +790,25 @@ class AndMaybeMatcher(AdditiveBiMatcher):
         if not b.is_active():
             return a.skip_to_quality(minquality)
 
+        # Only the required matcher can be skipped safely, and only against
+        # the best the optional matcher can still add (skipping blocks of the
+        # optional matcher would lower the scores of the postings they hold).
+        # When no block can be skipped, the current posting, which scores at
+        # most aq + bq, is stepped over
         skipped = 0
-        aq = a.block_quality()
-        bq = b.block_quality()
-        while a.is_active() and b.is_active() and aq + bq < minquality:
-            if aq < bq:
-                skipped += a.skip_to_quality(minquality - bq)
-                aq = a.block_quality()
+        while a.is_active():
+            if not b.is_active():
+                skipped += a.skip_to_quality(minquality)
+                break
+            if a.block_quality() + b.block_quality() > minquality:
+                break
+            sk = a.skip_to_quality(minquality - b.max_quality())
+            if sk:
+                skipped += sk
+                if a.is_active() and b.is_active():
+                    b.skip_to(a.id())
             else:
-                skipped += b.skip_to_quality(minquality - aq)
-                bq = b.block_quality()
-
+                self.next()
         return skipped
 
     def weight(self):
